@@ -176,6 +176,10 @@ func (m *roaManager) HandleROAEvent(ev *roaEvent) {
 		client.state.RpkiMessages = oc.RpkiMessages{}
 		client.conn = nil
 		go client.tryConnect()
+		if client.timer != nil {
+			// a second loss before End-of-Data: one lifetime timer per cache
+			client.timer.Stop()
+		}
 		client.timer = time.AfterFunc(time.Duration(client.lifetime)*time.Second, client.lifetimeout)
 		client.oldSessionID = client.sessionID
 	case roaConnected:
